@@ -13,7 +13,7 @@ TRUSTED = [
     "Spec encoders for the split formats (Spec/*Spec.v)",
 ]
 RULE = ("responses with 2-6 fragments from the extracted Spec generator; every permutation of the fragments of one reply (exhaustive up to 5 fragments, "
-        "sampled at 6), every single-fragment duplication at every position of in-order arrival, and for GameSpy 1 / 3 responses of 3 and 4 fragments a duplicate at every position of every arrival order; sections gathered with Enforce so that a failing section fails the query; "
+        "sampled at 6), every single-fragment duplication at every position of in-order arrival, and for Valve and GameSpy 1 / 3 responses of 3 and 4 fragments a duplicate at every position of every arrival order; sections gathered with Enforce so that a failing section fails the query; "
         "non-trivial = the arrival order differs from in-order or a duplicate is present; distinct by case bytes")
 
 ENFORCE = (2, 2, True)
@@ -54,6 +54,19 @@ def gen_cases(tier, rng):
                     g2[gi] = (ch, b2)
                     cases.append({"id": "dup/%d/%d/%d/%d" % (s["seed"], gi, j, pos), "hex": assemble(s["settings"], flatten(g2), s["bz"]),
                                   "meta": {"stream": "valve-duplicate", "expected": s["expected"], "k": k}})
+            # a duplicate inserted at every position of every arrival order (3 and 4 fragments):
+            # the client reads `total` datagrams, so both copies can arrive before a middle-numbered fragment
+            if k in (3, 4) and used <= (12 if tier == "quick" else 120):
+                for pi, perm in enumerate(perms):
+                    if list(perm) == sorted(perm):
+                        continue
+                    order = [body[j] for j in perm]
+                    for j in range(k):
+                        for pos in range(k + 1):
+                            g2 = list(groups)
+                            g2[gi] = (ch, order[:pos] + [body[j]] + order[pos:])
+                            cases.append({"id": "permdup/%d/%d/%d/%d/%d" % (s["seed"], gi, pi, j, pos), "hex": assemble(s["settings"], flatten(g2), s["bz"]),
+                                          "meta": {"stream": "valve-reordered-duplicate", "expected": s["expected"], "k": k}})
     # Unreal 2 multi-packet lists: permutations of the mutators/rules datagrams and of the player datagrams
     done = 0
     for u in u2_specs([rng.next() >> 1 for _ in range(40 if tier == "quick" else 400)], (2, 2)):
